@@ -94,7 +94,8 @@ def poke_threshold(ctx):
         ctx.stats["states"] += len(paths)
         for pc, (stt, text), holes in paths:
             if stt != "ok":
-                raise HarnessError(f"BasicPoke on symbolic address: {stt} {text}")
+                ctx.harness_gap(f"BasicPoke on symbolic address: {stt} {text}")
+                continue
             shape = "".join(p if isinstance(p, str) else "#" for p in symproxy.split_template(text))
             m = re.fullmatch(r"play\.octo := ([01])", shape)
             ctx.stats["obligations"] += 1
@@ -161,7 +162,8 @@ def run(tier):
             if sig == "unknown":
                 ctx.note_inconclusive(f"{r['job'][2]!r}: {what}")
             elif sig.startswith("harness"):
-                raise HarnessError(f"{r['job'][2]!r}: {what}")
+                ctx.harness_gap(f"{r['job'][2]!r}: {what}")
+                continue
             else:
                 ctx.violation(sig, f"{r['job'][2]!r} -> {what}", {"source": r["job"][2], "emitted": r.get("emitted"), "witness": witness})
     for r in results[:: max(1, len(results) // 8)]:
